@@ -150,4 +150,27 @@ PROPS.update({
                        "SinglePatternMatcher at the corresponding anchor is checked on the implementation at every step of every generated history; "
                        "the Rust occurrence oracle is compared with the Coq specification on every host of every history.",
         "technique": "Coq proof on the occurrence specification + self/extension-history testing of the matchers against it"},
+    "C17": {"subs": ["c17"], "level": "other",
+        "rule": AUT_RULE + "; each case is built twice in-process under every heuristic (state count, dot rendering, match sequences compared) "
+                "and, for the cross-process part, 150 (quick) / 1500 (thorough) cases are fingerprinted in 4 / 16 separate processes (different "
+                "address-space layouts, different heap perturbation) and the outputs compared byte for byte",
+        "trusted_base": AUT_TB + ["the source audit is a regular-expression scan of /repo/src for hash containers other than the crate-wide Fx aliases "
+                                  "and for itertools adapters that return randomly seeded std HashMaps"],
+        "assumptions": AUT_ASSUME + ["hasher seeds and address-space layout are runtime facts no executable model exhibits; the theorem part is thin by nature"],
+        "timeout": 3000,
+        "explanation": "reproducibility is decided by (i) a source audit regenerated on every run, (ii) building every case twice in one process, "
+                       "(iii) fingerprinting the same cases in several separate processes; the Coq part only records that the modelled traversal is a "
+                       "function of the dumped automaton and the host.",
+        "technique": "source audit + in-process and cross-process differential comparison (theorem part trivial by construction)"},
+    "C08": {"subs": ["c08"], "level": "exploration",
+        "rule": AUT_RULE + "; plus a degenerate stream (empty pattern set, empty and one-cell patterns, every degenerate host: empty, ragged, "
+                "non-ASCII) under Never / Default / a Custom sequence; construction of ManyMatcher, find_matches, NaiveManyMatcher and "
+                "SinglePatternMatcher are all run under catch_unwind with overflow checks and debug assertions enabled",
+        "trusted_base": AUT_TB, "assumptions": AUT_ASSUME + [
+            "non-termination would show as the check's wall-clock timeout (reported as a broken obligation), stack exhaustion / allocation failure are not exhibited",
+            "the harness is compiled once, in release mode with debug-assertions and overflow-checks on"],
+        "timeout": 3000,
+        "explanation": "component totality theorems (c08_*_partial) plus panic/timeout exploration of construction and matching on every generated and "
+                       "degenerate case; Ok/Panic status of the modelled traversal compared with the implementation on every dumped automaton.",
+        "technique": "catch_unwind + watchdog exploration over generated and degenerate inputs; Coq totality lemmas for components"},
 })
